@@ -2,6 +2,7 @@ import VaxisModel.Driver.Common
 import VaxisModel.Driver.C09
 import VaxisModel.Model.TermKey
 import VaxisModel.Model.TermMouse
+import VaxisModel.Model.TermBody
 import VaxisModel.Model.TermInputModes
 import VaxisModel.Spec.TermInput
 
@@ -18,6 +19,10 @@ Ops (`op<TAB>impl`):
   key U key modes      impl = out|seqs|decoded      out = runes written; decoded = decodeKey(first seq)
   mouse modes mouse    impl = ret|written|seqs|pm    pm = parseMouseEvent(first seq) as button,col,row,event,mods
   paste modes start|end  impl = out|seqs
+  ppaste U modes payload seqs   a whole bracketed paste through a real host Vaxis: impl = out|events
+                       payload = code points injected between ESC[200~ and ESC[201~; seqs = what the real ansi
+                       parser makes of the payload; events = what the host posted (S, E, K<key>), each forwarded with the
+                       real Model.Update; out = code points the child received
   ckey U script key / cmouse script mouse / cpaste script start|end
                        the same, but the modes are whatever the child's own output `script` selected: the harness
                        feeds the bytes through the real parser and Model.update; the oracle uses Spec.specModes
@@ -63,7 +68,28 @@ def showMouse (m : Mouse) : String := s!"{m.button},{m.col},{m.row},{m.event},{m
 
 def field (impl : String) (i : Nat) : String := ((impl.splitOn "|")[i]?).getD ""
 
-def keyVerdict (u : Uni) (k : Key) (md : Modes) (seqs : List PSeq) (dkTok : String) : String :=
+/-- Oracles on the code points written for one key event, beyond the round trip: the text clause, the
+    xterm form of Ctrl+Alt+letter, and "no junk for Ctrl + a character". `none` = nothing to object to. -/
+def bytesVerdict (k : Key) (out : Str) : Option String :=
+  let xm := xtermMods k
+  let alt := xm &&& KeyEnc.altBit ≠ 0
+  let ctrl := xm &&& KeyEnc.ctrlBit ≠ 0
+  if textDue k ∧ out ≠ k.text then
+    some s!"FAIL [text lost] the event carries the text {showStr k.text} (no Alt/Ctrl) but {showStr out} was written"
+  else if ctrl ∧ 32 ≤ k.keycode ∧ k.keycode < Gen.Keys.maxRune ∧ validRune k.keycode then
+    match (if alt then altCtrlXterm k.keycode else none) with
+    | some want =>
+      if out = want then none
+      else some s!"FAIL [alt+ctrl not xterm's form] expected ESC + the C0 byte ({showStr want}), {showStr out} was written"
+    | none =>
+      let body := if alt then (match out with | 27 :: r => r | r => r) else out
+      let fine : Bool := body == [k.keycode] || body == [] ||
+        (match body with | [b] => decide (0 ≤ b ∧ b < 32) || decide (b = 127) | _ => false)
+      if fine then none
+      else some s!"FAIL [ctrl junk] Ctrl + key {k.keycode} wrote {showStr out}: neither the key, nor a control code, nor nothing"
+  else none
+
+def keyVerdict (u : Uni) (k : Key) (md : Modes) (seqs : List PSeq) (dkTok : String) (outTok : String := "") : String :=
   let xm := xtermMods k
   -- cursor-key mode selects the encoding
   let cursor : Option String :=
@@ -77,12 +103,19 @@ def keyVerdict (u : Uni) (k : Key) (md : Modes) (seqs : List PSeq) (dkTok : Stri
   match cursor with
   | some e => e
   | none =>
-    if XtermDomain u k then
+    let bv : Option String := match sepInts? "." outTok with
+      | some out => bytesVerdict k out
+      | none => none
+    match bv with
+    | some e => e
+    | none =>
+    if XtermDomainU u k then
       match seqs, parseKey? dkTok with
       | [_], some dk =>
         if decide (keyArrives u k dk) then "ok"
         else s!"FAIL [key round trip] forwarded key decodes to {showKey dk}, which does not match key {k.keycode} mods {xm}"
       | _, _ => s!"FAIL [key round trip] forwarded bytes are not exactly one key sequence ({seqs.length} sequences)"
+    else if textDue k ∨ (xm &&& KeyEnc.ctrlBit ≠ 0 ∧ 32 ≤ k.keycode ∧ k.keycode < Gen.Keys.maxRune ∧ validRune k.keycode) then "ok"
     else "-"
 
 def mouseVerdict (md : Modes) (m : Mouse) (seqs : List PSeq) (pmTok : String) : String :=
@@ -133,7 +166,7 @@ def keyStep (u : Uni) (k : Key) (mdM mdS : Modes) (impl : String) : String :=
       | .plain s :: _ => showKey (decodeKey u s)
       | _ => "-"
     let model := s!"{showStr out}|{seqTok}|{mdk}"
-    s!"{model}\t{impl}\t{keyVerdict u k mdS seqs (field impl 2)}"
+    s!"{model}\t{impl}\t{keyVerdict u k mdS seqs (field impl 2) (field impl 0)}"
 
 def mouseStep (m : Mouse) (mdM mdS : Modes) (impl : String) : String :=
   let (w, r) := handleMouse mdM m
@@ -162,6 +195,61 @@ def pasteStep (which : String) (mdM mdS : Modes) (impl : String) : String :=
       else "FAIL [paste not enabled] bytes were written although the child has not enabled bracketed paste"
     s!"{showStr out}|{seqTok}\t{impl}\t{v}"
 
+/-- Items of a paste from the parser's sequences (`none` = a sequence the paste model does not cover). -/
+def itemOfSeq? : Seq → Option PasteItem
+  | .print g => some (.grapheme g)
+  | .c0 b => some (.c0 b)
+  | .csi [[200]] 126 => some .start
+  | .csi [[201]] 126 => some .stop
+  | _ => none
+
+def showEvent : Event → String
+  | .key k => "K" ++ showKey k
+  | .pasteStart => "S"
+  | .pasteEnd => "E"
+  | .mouse _ => "M"
+
+def parseEvent? (tok : String) : Option Event :=
+  if tok = "S" then some .pasteStart
+  else if tok = "E" then some .pasteEnd
+  else if tok.startsWith "K" then (parseKey? (tok.drop 1).toString).map .key
+  else none
+
+/-- Remove every occurrence of a marker from the payload. -/
+def stripMarker (mk : Str) : Nat → Str → Str
+  | 0, s => s
+  | _, [] => []
+  | fuel + 1, c :: rest =>
+    if mk.isPrefixOf (c :: rest) then stripMarker mk fuel ((c :: rest).drop mk.length)
+    else c :: stripMarker mk fuel rest
+
+/-- A whole paste. model-canon = what the model writes for the events the host posted | the events the
+    model of the host (`Spec.pasteEvents` over the parser's sequences) expects; oracle (independent of
+    both): the child receives `ESC[200~ payload ESC[201~` byte-identical if it enabled 2004, and the
+    payload with the markers removed otherwise. -/
+def ppasteStep (u : Uni) (md : Modes) (payload : Str) (seqTok : String) (impl : String) : String :=
+  let outTok := field impl 0
+  let evTok := field impl 1
+  let evs? : Option (List Event) := if evTok = "-" ∨ evTok = "" then some [] else (evTok.splitOn ",").mapM parseEvent?
+  let seqs? : Option (List Seq) := if seqTok = "-" ∨ seqTok = "" then some [] else (seqTok.splitOn ",").mapM parseSeq?
+  match evs?, seqs?, sepInts? "." outTok with
+  | some evs, some seqs, some out =>
+    let mout := forward u md evs
+    let mev : String := match seqs.mapM itemOfSeq? with
+      | some items => ",".intercalate ((pasteEvents u false (.start :: items ++ [.stop])).map showEvent)
+      | none => evTok   -- sequences outside the paste model: events not predicted
+    let startM := renderSeq pasteStartSeq
+    let endM := renderSeq pasteEndSeq
+    let want : Str :=
+      if md.paste then startM ++ payload ++ endM
+      else stripMarker startM (payload.length + 1) (stripMarker endM (payload.length + 1) payload)
+    let v := if payload.contains 8 then "-"     -- BS is reported as the BackSpace key by the host (see notes)
+      else if out = want then "ok"
+      else if md.paste then s!"FAIL [paste payload] the child enabled 2004 and must receive the paste byte-identical ({showStr want}), got {showStr out}"
+      else s!"FAIL [paste payload] the child must receive the payload without markers ({showStr want}), got {showStr out}"
+    s!"{showStr mout}|{mev}\t{impl}\t{v}"
+  | _, _, _ => bad
+
 def step (line : String) : String :=
   let (op, impl) := splitTab line
   match fields op with
@@ -173,6 +261,10 @@ def step (line : String) : String :=
     match mt.toNat?, parseMouse? mst with
     | some mn, some m => mouseStep m (modesOf mn) (modesOf mn) impl
     | _, _ => bad
+  | ["ppaste", ut, mt, pt, st] =>
+    match parseU? ut, mt.toNat?, sepInts? "." pt with
+    | some t, some mn, some payload => ppasteStep (mkUni t []) (modesOf mn) payload st impl
+    | _, _, _ => bad
   | ["paste", mt, which] =>
     match mt.toNat? with
     | some mn => pasteStep which (modesOf mn) (modesOf mn) impl
@@ -192,6 +284,61 @@ def step (line : String) : String :=
     | none => bad
   | _ => bad
 
-def main : IO Unit := lineLoop step
+/-! ### Structural tie: the bodies extracted from widgets/term on this run
+
+`Model/TermBody.lean` interprets the bodies of `encodeXterm`, `handleMouse` and `Model.Update` as the
+extractor regenerated them (`Gen/TermBody.lean`).  On every case the driver also runs those and
+requires the results of the hand-written model (`Props/C13Body.lean` proves they coincide): a
+difference, or a shape the interpreter has no meaning for, poisons the model column. -/
+
+open VaxisModel.Model.TermBody in
+def genAgrees (line : String) : Bool :=
+  let (op, impl) := splitTab line
+  let keyOK (u : Uni) (k : Key) (md : Modes) : Bool :=
+    encodeXtermGen u k md.deckpam md.decckm == some (encodeXterm u k md.deckpam md.decckm) &&
+    updateGen u md (.key k) == some (update u md (.key k))
+  let mouseOK (m : Mouse) (md : Modes) : Bool :=
+    let u : Uni := mkUni [] []
+    handleMouseGen u md m == some (handleMouse md m) && updateGen u md (.mouse m) == some (update u md (.mouse m))
+  let pasteOK (md : Modes) : Bool :=
+    let u : Uni := mkUni [] []
+    updateGen u md .pasteStart == some (update u md .pasteStart) && updateGen u md .pasteEnd == some (update u md .pasteEnd)
+  match fields op with
+  | ["key", ut, kt, mt] =>
+    (match parseU? ut, parseKey? kt, mt.toNat? with
+     | some t, some k, some mn => keyOK (mkUni t []) k (modesOf mn)
+     | _, _, _ => true)
+  | ["ckey", ut, sc, kt] =>
+    (match parseU? ut, parseScript? sc, parseKey? kt with
+     | some t, some ops, some k => keyOK (mkUni t []) k (childModes ops)
+     | _, _, _ => true)
+  | ["mouse", mt, mst] =>
+    (match mt.toNat?, parseMouse? mst with
+     | some mn, some m => mouseOK m (modesOf mn)
+     | _, _ => true)
+  | ["cmouse", sc, mst] =>
+    (match parseScript? sc, parseMouse? mst with
+     | some ops, some m => mouseOK m (childModes ops)
+     | _, _ => true)
+  | ["paste", mt, _] => (match mt.toNat? with | some mn => pasteOK (modesOf mn) | none => true)
+  | ["cpaste", sc, _] => (match parseScript? sc with | some ops => pasteOK (childModes ops) | none => true)
+  | ["ppaste", ut, mt, _, _] =>
+    (match parseU? ut, mt.toNat? with
+     | some t, some mn =>
+       let u := mkUni t []
+       let md := modesOf mn
+       let evTok := field impl 1
+       let evs? : Option (List Event) := if evTok = "-" ∨ evTok = "" then some [] else (evTok.splitOn ",").mapM parseEvent?
+       (match evs? with
+        | some evs => evs.all fun ev => updateGen u md ev == some (update u md ev)
+        | none => true)
+     | _, _ => true)
+  | _ => true
+
+def stepTied (line : String) : String :=
+  let out := step line
+  if genAgrees line then out else "extracted-body≠model|" ++ out
+
+def main : IO Unit := lineLoop stepTied
 
 end VaxisModel.Driver.C13
